@@ -9,6 +9,7 @@ MODELS = {
     'chain': dict(species=['A', 'B', 'C'], rx=[('A', 'B', 'k1'), ('B', 'C', 'k2'), ('C', None, 'k3')],
                   params={'k1': 0.8, 'k2': 0.3, 'k3': 0.5}),
 }
+DEFAULTS = {'A': 2.0, 'B': 0.5, 'C': 1.5}    # the model's own values: used for every species a trajectory's initial condition does not mention
 GRIDS = [np.array([0.0, 0.25, 0.5, 1.0, 1.5]), np.array([0.0, 0.4, 0.8, 1.2, 2.0])]
 THETAS = [[0.5], [1.3], [0.5], [-0.7], [2.2]]      # includes a repeat and an out-of-support point (uniform 0..3)
 
@@ -18,7 +19,7 @@ def build_model(name):
     md = MODELS[name]
     rx = [([a], [b] if b else [], 'massaction', {'k': k}) for a, b, k in md['rx']]
     return Model(species=list(md['species']), reactions=rx, parameters=list(md['params'].items()),
-                 initial_condition_dict={s: 0.0 for s in md['species']})
+                 initial_condition_dict={s: DEFAULTS[s] for s in md['species']})
 
 
 def x_ref(name, params, ic, times):
@@ -32,7 +33,7 @@ def x_ref(name, params, ic, times):
         K[i, i] -= params[k]
         if b:
             K[sp.index(b), i] += params[k]
-    x0 = np.array([ic.get(s, 0.0) for s in sp], dtype=float)
+    x0 = np.array([ic.get(s, DEFAULTS[s]) for s in sp], dtype=float)
     return np.array([expm(K * t) @ x0 for t in times])
 
 
@@ -43,7 +44,9 @@ def make_case(name, N, meas, norm, icv, pcv, gridv, wrap_single):
     for n in range(N):
         ic = {sp[0]: 4.0 + n}
         if icv == 'per-trajectory' and len(sp) > 1:
-            ic[sp[1]] = 1.0 + 0.5 * n
+            ic[sp[1]] = (1.0 + 0.5 * n) if n % 2 == 0 else 0.0      # an explicit zero is a value, not 'unset'
+        if icv == 'per-trajectory' and n == 2:
+            ic[sp[0]] = 0.0
         ics.append(ic if icv != 'shared' else {sp[0]: 4.0})
         if pcv == 'none' or len(md['params']) < 2:
             pcs.append(None)
